@@ -832,7 +832,7 @@ def bound_samesrc(repo, res):
 
 @rule(
     "RESTRICTION-FLOW",
-    ["C02"],
+    ["C02", "C03"],
     "every call of a function that takes a `restriction` (symbols.entity, symbols.domain_dof_access, symbols.element_table, "
     "access.table_access, ...) binds it - through the callee's signature - to the restriction of the modified terminal being "
     "translated (`<mt>.restriction`) or to the caller's own `restriction` parameter; a constant or another terminal's "
